@@ -15,7 +15,7 @@ def parse(toks):
     def stmt():
         t = toks[pos[0]]
         pos[0] += 1
-        if t in ("s", "r"):
+        if t in ("s", "n", "r"):
             return {"k": t}
         if t == "if":
             return {"k": "if", "t": arm()}
@@ -79,7 +79,7 @@ class Builder:
         self.nodes.append(None)
         k = st["k"]
         node = {"k": k, "id": 0, "kids": [], "t": 0, "e": 0, "depth": depth}
-        if k in ("s", "r"):
+        if k in ("s", "n", "r"):
             node["id"] = st.get("id") or self.new_id()
             st["id"] = node["id"]
             if k == "s" and "w" not in st:
@@ -107,6 +107,8 @@ def render_stmt(st, ind):
     if k == "s":
         rhs = "%d" % st["id"] if not st["r"] else "%s + %d" % (st["r"], st["id"])
         return "%s%s = %s;\n" % (pad, st["w"], rhs)
+    if k == "n":
+        return "%sassert(p0 != %d);\n" % (pad, st["id"])        # a statement that assigns no local
     if k == "r":
         return "%sreturn x + %d;\n" % (pad, st["id"])
     if k == "blk":
@@ -244,6 +246,8 @@ def convert(cfg):
                 for f in ("lhe", "rhe", "arg"):
                     if isinstance(s.get(f), dict):
                         reads_of(s[f], st["reads"])
+                if s["k"] == "assert":
+                    st["tag"] = num_of(s["arg"])
             stmts.append(st)
         blocks.append({"preds": [p + 1 for p in b["preds"]], "succs": [x + 1 for x in b["succs"]], "depth": b["depth"],
                        "dom": [d + 1 for d in b["dom"]], "stmts": stmts})
